@@ -39,6 +39,10 @@ type wireOp struct {
 	helper string // helper function name
 	local  string // reader: local variable receiving the value
 	pos    token.Pos
+	// kind "call": a call of a package function that itself performs wire operations
+	callee *ast.FuncDecl
+	args   []ast.Expr
+	lhs    ast.Expr
 }
 
 func (o wireOp) String() string {
@@ -105,14 +109,8 @@ func (w *World) wireOps(fd *ast.FuncDecl, writer bool) []wireOp {
 			if len(x.Rhs) == 1 {
 				if call, ok := x.Rhs[0].(*ast.CallExpr); ok {
 					if f := w.callee(call); f != nil && f.Pkg() != nil && f.Pkg().Path() == twigPath && !writer && len(x.Lhs) >= 1 {
-						if d := w.decls[f]; d != nil && w.usesBinary(d, "Read") {
-							fld, _ := w.subjectField(x.Lhs[0], params)
-							if fld == "" {
-								if id, ok := x.Lhs[0].(*ast.Ident); ok {
-									fld = "local:" + id.Name
-								}
-							}
-							ops = append(ops, wireOp{kind: "helper", helper: f.Name(), field: fld, pos: call.Pos()})
+						if d := w.decls[f]; d != nil && d != fd && w.wireCapable(d, false, map[*ast.FuncDecl]bool{}) {
+							ops = append(ops, wireOp{kind: "call", helper: f.Name(), callee: d, args: call.Args, lhs: x.Lhs[0], pos: call.Pos()})
 							return false
 						}
 					}
@@ -170,9 +168,8 @@ func (w *World) wireOps(fd *ast.FuncDecl, writer bool) []wireOp {
 				ops = append(ops, op)
 			case writer:
 				if f := w.callee(x); f != nil && f.Pkg() != nil && f.Pkg().Path() == twigPath {
-					if d := w.decls[f]; d != nil && w.usesBinary(d, "Write") && len(x.Args) >= 2 {
-						fld, _ := w.subjectField(x.Args[1], params)
-						ops = append(ops, wireOp{kind: "helper", helper: f.Name(), field: fld, pos: x.Pos()})
+					if d := w.decls[f]; d != nil && d != fd && w.wireCapable(d, true, map[*ast.FuncDecl]bool{}) {
+						ops = append(ops, wireOp{kind: "call", helper: f.Name(), callee: d, args: x.Args, pos: x.Pos()})
 						return false
 					}
 				}
@@ -183,6 +180,9 @@ func (w *World) wireOps(fd *ast.FuncDecl, writer bool) []wireOp {
 						ops = append(ops, wireOp{kind: "raw", field: fld, pos: x.Pos()})
 					}
 				}
+			case !writer && w.calleeDecl(x) != nil && w.calleeDecl(x) != fd && w.wireCapable(w.calleeDecl(x), false, map[*ast.FuncDecl]bool{}):
+				ops = append(ops, wireOp{kind: "call", helper: w.calleeDecl(x).Name.Name, callee: w.calleeDecl(x), args: x.Args, pos: x.Pos()})
+				return false
 			case !writer && w.calleeIs(x, "io", "", "ReadFull") && len(x.Args) == 2:
 				fld, _ := w.subjectField(x.Args[1], params)
 				if fld == "" {
@@ -197,6 +197,110 @@ func (w *World) wireOps(fd *ast.FuncDecl, writer bool) []wireOp {
 	})
 	sort.SliceStable(ops, func(i, j int) bool { return ops[i].pos < ops[j].pos })
 	return ops
+}
+
+func (w *World) calleeDecl(c *ast.CallExpr) *ast.FuncDecl {
+	if f := w.callee(c); f != nil && f.Pkg() != nil && f.Pkg().Path() == twigPath {
+		return w.decls[f]
+	}
+	return nil
+}
+
+// wireCapable: the function performs wire operations itself or through package functions it calls.
+func (w *World) wireCapable(fd *ast.FuncDecl, writer bool, seen map[*ast.FuncDecl]bool) bool {
+	if fd == nil || fd.Body == nil || seen[fd] {
+		return false
+	}
+	seen[fd] = true
+	if writer && w.usesBinary(fd, "Write") || !writer && w.usesBinary(fd, "Read") {
+		return true
+	}
+	found := false
+	ast.Inspect(fd.Body, func(n ast.Node) bool {
+		if c, ok := n.(*ast.CallExpr); ok && !found {
+			if d := w.calleeDecl(c); d != nil && w.wireCapable(d, writer, seen) {
+				found = true
+			}
+		}
+		return !found
+	})
+	return found
+}
+
+// flatWire: the wire operations of fd with the operations of called package functions spliced
+// in at the call, their parameters (writer) resp. returned locals (reader) renamed to what the
+// call site passes resp. assigns.
+func (w *World) flatWire(fd *ast.FuncDecl, writer bool, depth int) []wireOp {
+	var out []wireOp
+	for _, op := range w.wireOps(fd, writer) {
+		if op.kind != "call" {
+			out = append(out, op)
+			continue
+		}
+		if depth > 3 {
+			out = append(out, wireOp{kind: "helper", helper: op.helper, pos: op.pos})
+			continue
+		}
+		sub := w.flatWire(op.callee, writer, depth+1)
+		// renaming
+		ren := map[string]string{}
+		callerParams := map[types.Object]bool{}
+		if fd.Type.Params != nil {
+			for _, f := range fd.Type.Params.List {
+				for _, n := range f.Names {
+					if o := w.Info.Defs[n]; o != nil {
+						if _, isIface := o.Type().Underlying().(*types.Interface); !isIface {
+							callerParams[o] = true
+						}
+					}
+				}
+			}
+		}
+		if writer {
+			i := 0
+			for _, f := range op.callee.Type.Params.List {
+				for _, n := range f.Names {
+					if i < len(op.args) {
+						if fld, _ := w.subjectField(op.args[i], callerParams); fld != "" {
+							ren["param:"+n.Name] = fld
+						}
+					}
+					i++
+				}
+			}
+		} else if op.lhs != nil {
+			target, _ := w.subjectField(op.lhs, callerParams)
+			if target == "" || strings.HasPrefix(target, "param:") {
+				if id, ok := op.lhs.(*ast.Ident); ok {
+					target = "local:" + id.Name
+				}
+			}
+			// locals of the callee that flow into its first result
+			ast.Inspect(op.callee.Body, func(n ast.Node) bool {
+				ret, ok := n.(*ast.ReturnStmt)
+				if !ok || len(ret.Results) == 0 {
+					return true
+				}
+				ast.Inspect(ret.Results[0], func(m ast.Node) bool {
+					if id, ok := m.(*ast.Ident); ok {
+						if _, isVar := w.Info.Uses[id].(*types.Var); isVar {
+							ren["local:"+id.Name] = target
+						}
+					}
+					return true
+				})
+				return true
+			})
+		}
+		for _, so := range sub {
+			if nf, ok := ren[so.field]; ok {
+				so.field = nf
+			}
+			so.pos = op.pos
+			out = append(out, so)
+		}
+	}
+	return out
 }
 
 // usesBinary: does the function body call binary.Write / binary.Read directly?
@@ -228,48 +332,44 @@ func checkC16(w *World, r *Report) {
 	r.floor("functions using binary.Write", len(writers), 2)
 	r.floor("functions using binary.Read", len(readers), 2)
 
-	// pair writers and readers: the pair whose subject is CompiledTemplate, and the helper pair
+	// the serialiser / deserialiser of CompiledTemplate: among the functions that (transitively)
+	// perform wire operations, the one whose flattened sequence names the most CompiledTemplate
+	// fields (helpers called from it are spliced into its sequence)
 	type side struct {
 		fd  *ast.FuncDecl
 		ops []wireOp
 	}
-	var mainW, mainR, helpW, helpR *side
-	for _, fd := range writers {
-		s := &side{fd, w.wireOps(fd, true)}
-		isMain := false
-		for _, o := range s.ops {
-			if o.field != "" && !strings.HasPrefix(o.field, "param:") {
-				isMain = true
-			}
-		}
-		if isMain {
-			mainW = s
-		} else {
-			helpW = s
-		}
-	}
-	for _, fd := range readers {
-		s := &side{fd, w.wireOps(fd, false)}
-		isMain := false
-		for _, o := range s.ops {
+	fields := func(ops []wireOp) int {
+		n := 0
+		for _, o := range ops {
 			if o.field != "" && !strings.HasPrefix(o.field, "local:") && !strings.HasPrefix(o.field, "param:") {
-				isMain = true
+				n++
 			}
 		}
-		if isMain {
-			mainR = s
-		} else {
-			helpR = s
+		return n
+	}
+	var mainW, mainR *side
+	for _, fd := range w.sortedDecls() {
+		if fd.Body == nil {
+			continue
+		}
+		if w.wireCapable(fd, true, map[*ast.FuncDecl]bool{}) {
+			s := &side{fd, w.flatWire(fd, true, 0)}
+			if fields(s.ops) > 0 && (mainW == nil || len(s.ops) > len(mainW.ops)) {
+				mainW = s
+			}
+		}
+		if w.wireCapable(fd, false, map[*ast.FuncDecl]bool{}) {
+			s := &side{fd, w.flatWire(fd, false, 0)}
+			if fields(s.ops) > 0 && (mainR == nil || len(s.ops) > len(mainR.ops)) {
+				mainR = s
+			}
 		}
 	}
 	if mainW == nil || mainR == nil {
 		cannotDecide("R16.1: could not identify the serialiser/deserialiser of CompiledTemplate")
 	}
-	helperPairOK := false
-	if helpW != nil && helpR != nil {
-		helperPairOK = w.compareWire(r, helpW.fd, helpR.fd, helpW.ops, helpR.ops, true, false)
-	}
-	w.compareWire(r, mainW.fd, mainR.fd, mainW.ops, mainR.ops, false, helperPairOK)
+	w.compareWire(r, mainW.fd, mainR.fd, mainW.ops, mainR.ops, false, true)
 
 	// every field of CompiledTemplate exactly once on each side
 	st := w.structOf("CompiledTemplate")
